@@ -27,7 +27,8 @@ func (b *Byte) Inspect() string {
 }
 
 func (b *Byte) HashKey() HashKey {
-	return HashKey{Type: b.Type(), IntValue: int64(b.value)}
+	// A byte equals the int of the same value and hashes like it
+	return HashKey{Type: INT, IntValue: int64(b.value)}
 }
 
 func (b *Byte) Interface() interface{} {
